@@ -85,7 +85,7 @@ func c14Status(t *testing.T, rep *vh.Report, quick bool) {
 	if !quick {
 		sels = append(sels, assetSel{vBundledRoot, "testpic_6s"})
 	}
-	cycles := []int{1, 2, 3, 4, 5, 6, 7, 8, 9, 10, 11, 12, 13, 30, 60}
+	cycles := []int{1, 2, 3, 4, 5, 6, 7, 8, 9, 10, 11, 12, 13, 30, 31, 60, 120} // 120: longer than the time-shift window
 	codesAll := []int{404, 410, 503, 599}
 	job := 0
 	for _, sel := range sels {
@@ -150,7 +150,7 @@ func c14Status(t *testing.T, rep *vh.Report, quick bool) {
 									if rep.OutOfBudget() {
 										return
 									}
-									c14RunStatus(rep, srv, a, sel.path, v, au, pats, start, snr, byTime)
+									c14RunStatus(rep, srv, a, sel.path, v, au, pats, start, snr, byTime, job%3 == 0)
 								}
 							}
 						}
@@ -161,7 +161,8 @@ func c14Status(t *testing.T, rep *vh.Report, quick bool) {
 	}
 }
 
-func c14RunStatus(rep *vh.Report, srv *Server, a *vref.VAsset, asset string, v, au *vref.VRep, pats []c14Pat, start int64, snr int, byTime bool) {
+// shortWindow: tsbd_10, so that the first segment of a cycle has left the time-shift window long before the cycle ends
+func c14RunStatus(rep *vh.Report, srv *Server, a *vref.VAsset, asset string, v, au *vref.VRep, pats []c14Pat, start int64, snr int, byTime, shortWindow bool) {
 	var ps []string
 	lcmS := a.LoopMS / 1000
 	if lcmS < 1 {
@@ -181,6 +182,9 @@ func c14RunStatus(rep *vh.Report, srv *Server, a *vref.VAsset, asset string, v, 
 	}
 	if start > 0 {
 		parts = append(parts, fmt.Sprintf("start_%d", start))
+	}
+	if shortWindow {
+		parts = append(parts, "tsbd_10")
 	}
 	// representations the pattern must treat like any other: subtitles and thumbnails of the asset, generated subtitles
 	type extraT struct{ id, tmpl string }
